@@ -63,6 +63,14 @@ class Report:
         mine = [k for k in known.get("findings", []) if k.get("property") == self.prop]
         known_keys = {k["key"]: k for k in mine}
         viol = [i for i in self.instances if not i.ok]
+        # A rule that lost one of its anchors (its recogniser reported an analysis error) cannot be trusted on its other instances in this
+        # run: those are reported as part of the analysis error (exit 2), not as violations of the property.
+        broken_rules = {e.split(":", 1)[0].strip() for e in self.errors if e[:1] == "R" and ":" in e[:8]}
+        demoted = [i for i in viol if i.rule in broken_rules]
+        if demoted:
+            viol = [i for i in viol if i.rule not in broken_rules]
+            for i in demoted:
+                self.errors.append(f"{i.rule}: (not reported as a violation because the rule lost an anchor in this run) {i.subject}: {i.message[:160]}")
         listed = [i for i in viol if i.full_key() in known_keys]
         unlisted = [i for i in viol if i.full_key() not in known_keys]
         seen_keys = {i.full_key() for i in viol}
@@ -205,3 +213,65 @@ def load_known() -> Dict[str, Any]:
         return {"findings": [], "fixed": []}
     with open(KNOWN_FILE) as f:
         return json.load(f)
+
+
+class Buffer:
+    """Collects rule instances without emitting them (same interface as Report for rules)."""
+
+    def __init__(self) -> None:
+        self.items: List[tuple] = []
+        self.n_bad = 0
+
+    def ok(self, *a, **k) -> None:
+        self.items.append(("ok", a, k))
+
+    def violation(self, *a, **k) -> None:
+        self.items.append(("violation", a, k))
+        self.n_bad += 1
+
+    def require(self, cond, msg) -> None:
+        if not cond:
+            self.items.append(("error", (msg,), {}))
+            self.n_bad += 1
+
+    def error(self, msg) -> None:
+        self.items.append(("error", (msg,), {}))
+        self.n_bad += 1
+
+    def count(self, *a, **k) -> None:
+        self.items.append(("count", a, k))
+
+    def replay(self, rep) -> None:
+        for kind, a, k in self.items:
+            getattr(rep, kind)(*a, **k)
+
+
+def with_flatten_fallback(rep, fn, body) -> None:
+    """Run `body(fn, reporter)` on the function as written.  If that reports a violation / analysis error and the function calls local
+    helpers, run it again on the flattened function (sa/flatten.py: helper calls inlined - the semantically identical program with
+    "extract method" undone) and take that result when it is entirely clean.  A real defect is reported by both views."""
+    from sa.flatten import flatten
+    from sa.model import AnalysisError
+
+    b1 = Buffer()
+    err1 = None
+    try:
+        body(fn, b1)
+    except AnalysisError as e:
+        err1 = e
+    if b1.n_bad == 0 and err1 is None:
+        b1.replay(rep)
+        return
+    f2 = flatten(fn)
+    if f2 is not fn:
+        b2 = Buffer()
+        try:
+            body(f2, b2)
+            if b2.n_bad == 0:
+                b2.replay(rep)
+                return
+        except AnalysisError:
+            pass
+    b1.replay(rep)
+    if err1 is not None:
+        raise err1
